@@ -1316,7 +1316,7 @@ impl Check for C14 {
         }
     }
     fn quick_runs(&self) -> u64 {
-        20_000
+        15_000
     }
     fn entropy(&self, s: &MScn) -> u64 {
         s.entropy
@@ -1725,6 +1725,121 @@ impl Check for C09R {
             s.ops.push(Op::BpAdd(bp));
         }
         s.ops.push(Op::Run);
+        s
+    }
+    fn execute(&self, s: &MScn) -> Outcome {
+        let mut out = Outcome::default();
+        let v = self.run(s, &mut out);
+        out.violation = v;
+        out
+    }
+    fn shrink(&self, s: &MScn) -> Vec<MScn> {
+        shrink_mscn(s)
+    }
+}
+
+// ===========================================================================
+// C27 strict arm — a call or return that strict mode refuses was not entered / executed
+
+/// RefLc3 covers non-strict mode. With `flags.strict` a step can be refused with a Strict* error;
+/// such a step entered no call and executed no return, so the frame depth (and, with debug frames,
+/// the frame list length) is what it was before the step. Only steps whose instruction is a
+/// subroutine call or a return are judged (JSR, JSRR, RET/JMP, RTI): trap and interrupt entries
+/// switch stacks and modes before they can fail and are left alone.
+pub struct C27S;
+impl C27S {
+    fn run(&self, scn: &MScn, out: &mut Outcome) -> Option<Violation> {
+        let mut s2 = scn.clone();
+        s2.flags.strict = true;
+        let mut w = match guarded(|| build(&s2)) {
+            Ok(Ok(w)) => w,
+            Ok(Err(_)) => {
+                out.bump("harness.unbuildable");
+                return None;
+            }
+            Err(p) => return Some(Violation { class: "panic-in-setup".into(), step: 0, detail: p }),
+        };
+        let mut steps = 0u64;
+        let mut refused_calls = 0u64;
+        let mut fp = Fp::new();
+        'ops: for op in &scn.ops {
+            let k = match op {
+                Op::Step(k) => *k,
+                other => {
+                    let _ = guarded(|| exec_op(&mut w, other));
+                    continue;
+                }
+            };
+            for _ in 0..k {
+                if steps >= scn.max_ticks as u64 {
+                    break 'ops;
+                }
+                steps += 1;
+                let pc = w.sim.pc;
+                let word = w.sim.mem[pc].get();
+                let depth0 = w.sim.frame_stack.len();
+                let list0 = w.sim.frame_stack.frames().map(|f| f.len());
+                let _ = w.log.take();
+                let r = match guarded(|| w.sim.step_in()) {
+                    Ok(r) => r.map_err(|e| err_kind(&e)),
+                    Err(p) => return Some(Violation { class: "panic-in-step".into(), step: steps, detail: p }),
+                };
+                let recs = w.log.take();
+                fp.add_str(r.err().unwrap_or("ok"));
+                let irq = recs.iter().any(|x| matches!(x, Rec::Poll { res: PollRes::Vect(..) | PollRes::External, .. }));
+                if let Err(k) = r {
+                    if is_strict_err(k) && !irq {
+                        let op4 = word >> 12;
+                        let is_call_or_ret = op4 == 4 || op4 == 12 || op4 == 8;
+                        if is_call_or_ret {
+                            refused_calls += 1;
+                            out.bump("probe.strict-refused-call-or-return");
+                            let depth1 = w.sim.frame_stack.len();
+                            let list1 = w.sim.frame_stack.frames().map(|f| f.len());
+                            if depth1 != depth0 || list1 != list0 {
+                                return Some(Violation { class: "refused-step-changed-frames".into(), step: steps, detail: format!("step at x{pc:04X} (word x{word:04X}) was refused with {k}: it entered no call and executed no return, yet frame depth went {depth0} -> {depth1} (frame list {list0:?} -> {list1:?})") });
+                            }
+                        }
+                        break 'ops;
+                    }
+                    break 'ops;
+                }
+            }
+        }
+        w.host.release_all();
+        out.sim_time = steps;
+        out.trace = fp.0;
+        if refused_calls > 0 {
+            out.fingerprint = Some(fp.0 ^ 0x27);
+        }
+        None
+    }
+}
+impl Check for C27S {
+    type Scn = MScn;
+    fn id(&self) -> &'static str {
+        "C27s"
+    }
+    fn meta(&self) -> Meta {
+        Meta { rule: "strict arm of C27", components_real: &["Simulator::step_in (strict)", "FrameStack"], components_stub: &["ClockDev/ScriptDev"], assumptions: &[], level: "exploration", enumerated: "none" }
+    }
+    fn quick_runs(&self) -> u64 {
+        6_000
+    }
+    fn entropy(&self, s: &MScn) -> u64 {
+        s.entropy
+    }
+    fn generate(&self, r: &mut Rng, _t: Tier, _i: u64) -> MScn {
+        let mut s = gen_frames(r);
+        s.profile = "C27-strict".into();
+        // calls and returns through registers that may never have been written, into memory that may
+        // never have been written
+        if r.bool() {
+            s.flags.init = InitS::Unseeded;
+        }
+        if r.chance(1, 3) {
+            s.regs.retain(|(k, _)| *k != 7);
+        }
         s
     }
     fn execute(&self, s: &MScn) -> Outcome {
